@@ -465,6 +465,10 @@ func checkAccessors(c *Case, v *Verdict) {
 				fail("genkey", "a key", fmt.Sprint(err), "GenerateKey failed on a healthy reader")
 				return
 			}
+			if dev.log.Delivered != 32 {
+				fail("genkey-consumption", "32 bytes read", fmt.Sprint(dev.log.Delivered), "GenerateKey returned a key after reading a different number of bytes than 32")
+				return
+			}
 			pp, ok := priv.Public().(ed25519.PublicKey)
 			if !ok || !pp.Equal(pub) || !pub.Equal(pp) || !bytes.Equal(pub, priv[32:]) {
 				fail("genkey-public", hx(pub), hexOrNil(pp), "priv.Public() differs from the generated public key")
